@@ -607,7 +607,7 @@ inductive ServedState : St → Prop
 open ZygoVerif.RunInv in
 /-- the fresh interpreter: table invariant, `mainfunc` empty and compiled, at rest -/
 theorem served_initSt : Served initSt :=
-  ⟨wf_initSt, ⟨rfl, AllOK.nil _, idsIn_nil _ _, rfl⟩, ⟨rfl, rfl, rfl, rfl, rfl, by decide⟩⟩
+  ⟨wf_initSt, ⟨rfl, AllOK.nil _, idsIn_nil _ _, rfl⟩, ⟨rfl, rfl, rfl, rfl, rfl, by decide⟩, rfl⟩
 
 open ZygoVerif.RunInv in
 /-- **run_at_rest for every state that satisfies the invariant** (`RunInv.Served`: `RunInv.WF`,
